@@ -67,4 +67,21 @@ CONSTANTS["C06"] += [
     ("SHAPE_BUDGET", _RB,
      r"let rows_after_offset = rows_before_budget\.saturating_sub\(self\.offset\.unwrap_or\((0)\)\);\s*match self\.limit \{\s*Some\(limit\) => rows_after_offset\.min\(limit\),\s*None => rows_after_offset,[\s\S]*?let rows_before_budget = plan_builder\.num_rows_selected\(\)\.unwrap_or\(row_count\);[\s\S]*?let rows_after_budget = self\.rows_after\(rows_before_budget\);[\s\S]*?remaining_budget: self\.advance\(rows_before_budget, rows_after_budget\),[\s\S]*?\*offset = offset\.saturating_sub\(rows_before_budget - rows_after_budget\);[\s\S]*?\*limit -= rows_after_budget;", "int"),
 ]
+
+# value-level `skip` of the byte-array decoders (same expressions in both files)
+_BV = "parquet/src/arrow/array_reader/byte_view_array.rs"
+_BA = "parquet/src/arrow/array_reader/byte_array.rs"
+_DL_SKIP = (r"fn skip\(&mut self, to_skip: usize\) -> Result<usize> \{\s*let remain_values = self\.lengths\.len\(\) - self\.length_offset;"
+            r"\s*let to_skip = remain_values\.min\(to_skip\);\s*let src_lengths = &self\.lengths\[self\.length_offset\.\.self\.length_offset \+ to_skip\];"
+            r"\s*let total_bytes: usize = src_lengths\.iter\(\)\.map\(\|x\| \*x as usize\)\.sum\(\);\s*self\.data_offset \+= total_bytes;"
+            r"\s*self\.length_offset \+= to_skip;\s*Ok\(to_skip\)()")
+_PLAIN_SKIP = (r"let to_skip = to_skip\.min\(self\.max_remaining_values\);\s*let mut skip = (0);\s*let buf(?:: &\[u8\])? = self\.buf\.as_ref\(\);"
+               r"\s*while self\.offset < self\.buf\.len\(\) && skip != to_skip \{[\s\S]*?let len = u32::from_le_bytes\(len_bytes\) as usize;"
+               r"\s*skip \+= 1;\s*self\.offset = self\.offset \+ 4 \+ len;\s*\}\s*self\.max_remaining_values -= skip;")
+CONSTANTS["C06"] += [
+    ("SHAPE_VIEW_DELTA_LENGTH_SKIP", _BV, _DL_SKIP, "intlist"),
+    ("SHAPE_BYTES_DELTA_LENGTH_SKIP", _BA, _DL_SKIP, "intlist"),
+    ("SHAPE_VIEW_PLAIN_SKIP", _BV, _PLAIN_SKIP, "int"),
+    ("SHAPE_BYTES_PLAIN_SKIP", _BA, _PLAIN_SKIP, "int"),
+]
 FUNCTIONS = {}
